@@ -107,6 +107,9 @@ def run(patterns, tier, props_override):
         try:
             a = subprocess.run(["git", "-C", work, "apply", os.path.join(d, "patch.diff")], capture_output=True, text=True)
             if a.returncode != 0:
+                # the repository moved on since the change was written (later fix: commits): three-way merge on the recorded blobs
+                a = subprocess.run(["git", "-C", work, "apply", "-3", os.path.join(d, "patch.diff")], capture_output=True, text=True)
+            if a.returncode != 0:
                 results.append((name, "PATCH-FAILED", a.stderr[:200]))
                 continue
             for pid in props:
